@@ -7,24 +7,26 @@ Model/ExprParser.lean (expression level), tied to tera/src/parsing/parser.rs on 
 harness/src/bin/c06p.rs (exact equality of parent / nodes / component definitions on real token
 streams, both reject the same inputs).  The lexer side of C06 is Props/C06.lean.
 
-  T1  parser_total_no_panic, expression_parser_total
+  T1  parser_total_no_panic, parser_total_on_lexer_output, expression_parser_total
   T2  counted_depth_bounded, expression_counted_depth_bounded, elif_chain_not_counted
   T3  ast_height_bound, ast_height_unbounded (F1 as a theorem: two witness families)
   T4  break_continue_legal, break_rule, continue_rule
   T5  blocks_recorded_once, extends_rule, extends_not_first_accepted (a finding: the documented
       "first tag / not nested" rule does not hold inside a `for … else` body)
 
-Not proved here: that the token list of `Tera.Lexer.tokenize` (Props/C06.lean) satisfies `shaped`
-— the per-step facts are `C06.template_state_tokens` / `filter_removes_raw_and_comment` /
-`node_level_tokens`; the whole-stream shape is checked by the harness on every real token stream
-(driver op `shape`).  The Rust frame counts per counted level quoted under T2 are read off the
-code, not modelled.
+The hypothesis `shaped` of T1 is discharged for the lexer model in `parser_total_on_lexer_output`
+(kind-for-kind correspondence of the two token types; the VALUES carried by in-tag tokens play no
+role in the shape).  That the real token stream has the same kinds as both models is what the
+harness runs compare (c06: lexer model vs real tokens; c06p: driver op `shape` on every real
+token stream).  The Rust frame counts per counted level quoted under T2 are read off the code,
+not modelled.
 -/
 import TeraModel.Lemmas.TemplateParserTotal
 import TeraModel.Lemmas.TemplateParserHeight
 import TeraModel.Lemmas.TemplateParserLegal
 import TeraModel.Lemmas.TemplateParserCounted
 import TeraModel.Lemmas.AstFree
+import TeraModel.Lemmas.LexerShape
 namespace Tera.C06Parser
 open Tera Tera.Parser Tera.TParser
 
@@ -55,6 +57,17 @@ are unreachable), never out of iteration budget — every loop of the model runs
 theorem parser_total_no_panic (maxDepth : Nat) (toks : List Tok) (h : shaped .tpl toks = true) :
     (∃ t s, parse maxDepth toks = .ok t s) ∨ parse maxDepth toks = .err :=
   parse_total maxDepth toks h
+
+/-- **parser_total_on_lexer_output.**  The hypothesis of T1 is discharged by the lexer model of
+Props/C06.lean: for EVERY delimiter set and EVERY source, a parser token list that is
+kind-for-kind (`LexedAs`: content / `{{` / `}}` / `{%` / `%}` / error item / anything else) the
+filtered token stream `Lexer.tokenize d src`, followed by the error item when the lexer stopped
+on a syntax error, is parsed to `ok` or a syntax error.  (`tokenize_shaped`, Lemmas/LexerShape.lean,
+reuses the per-pass shape lemmas behind `C06.node_level_tokens`.) -/
+theorem parser_total_on_lexer_output (d : Delims) (src : Bytes) (maxDepth : Nat) (toks : List Tok)
+    (h : LexedAs d src toks) :
+    (∃ t s, parse maxDepth toks = .ok t s) ∨ parse maxDepth toks = .err :=
+  parse_total maxDepth toks h.shaped
 
 /-- the hypothesis is needed: a token the lexer cannot emit at template level does reach the
 `unreachable!` -/
